@@ -620,15 +620,72 @@ Proof.
       unfold conc. rewrite Ee, Ho. reflexivity.
 Qed.
 
+(* serVer 3 written with more preamble longs than necessary (one entry with a count field; exact mode with
+   theta = 2^63-1 stored): read back to the same state *)
+Lemma expressible_v3l : forall pre a, expressible (V3L pre) a = true ->
+  a_empty a = false /\ ((pre = 2 /\ est a = false) \/ pre = 3).
+Proof.
+  intros pre a H. unfold expressible in H. apply andb_prop in H as [H1 H2].
+  split; [now apply negb_true_iff in H1|]. apply orb_prop in H2 as [H2|H2].
+  - apply andb_prop in H2 as [Ha Hb]. left. split; [now apply N.eqb_eq|now apply negb_true_iff].
+  - right. now apply N.eqb_eq.
+Qed.
+
+Theorem reads_v3_long : forall sh pre a, abs_okb a = true -> expressible (V3L pre) a = true -> a_seed_hash a = sh ->
+  c_deserialize sh (enc_v3_long pre a) = Ok (conc a).
+Proof.
+  intros sh pre a Hok Hex Hseed. subst sh. destruct (expressible_v3l pre a Hex) as [Hne Hpre].
+  destruct (abs_ok_parts a Hok) as [Hent [Hth0 [Hth [Hemp [Hord [Hsd Hcnt]]]]]].
+  unfold enc_v3_long, c_deserialize.
+  set (flags := S_READ_ONLY + S_COMPACT + (if a_ordered a then S_ORDERED else 0)).
+  assert (HF : flag_set flags (zN GenTheta.FLAGS_IS_EMPTY) = false /\ flag_set flags (zN GenTheta.FLAGS_IS_ORDERED) = a_ordered a).
+  { unfold flags. destruct (a_ordered a); vm_compute; split; reflexivity. }
+  destruct HF as [Fe Fo].
+  assert (Hp : pre = 2 \/ pre = 3) by (destruct Hpre as [[E2 _] | E3]; auto).
+  cbn [app]. change S_FAMILY_THETA with 3.
+  do 3 (rewrite rd_cons; cbn [obind]).
+  change (negb (3 =? zN GenCodec.FAMILY_THETA_ID)) with false. cbv iota.
+  change (zN GenCodec.FAMILY_THETA_MIN_PRE_LONGS) with 1. change (zN GenCodec.FAMILY_THETA_MAX_PRE_LONGS) with 3.
+  destruct (N.leb_spec 1 pre); [|lia]. destruct (N.leb_spec pre 3); [|lia]. cbn [andb negb].
+  change (3 =? 1) with false. change (3 =? 2) with false. change (3 =? 3) with true. cbv iota.
+  unfold deserialize_v3.
+  change (0 :: 0 :: flags :: ?l) with ([0; 0] ++ flags :: l).
+  rewrite (rd_app 2 [0; 0]) by reflexivity. cbn [obind]. rewrite rd_cons. cbn [obind].
+  rewrite rd_le by exact Hsd. cbn [obind]. rewrite Fe, Fo, N.eqb_refl. cbn [negb].
+  assert (Hord' : a_ordered a = true -> ascending_b (a_entries a) = true) by (intros Ho; rewrite <- asc_ascending_b; auto).
+  destruct Hp as [-> | ->].
+  - (* preLongs 2 *)
+    destruct Hpre as [[_ Hest]|Hbad]; [|discriminate]. unfold est in Hest.
+    assert (Eth : a_theta a = S_MAX_THETA) by (apply N.ltb_ge in Hest; lia).
+    change (2 =? 1) with false. change (2 <? 2) with false. change (2 =? 3) with false. cbv iota. cbn [app].
+    rewrite rd_le by exact Hcnt. cbn [obind].
+    change (0 :: 0 :: 0 :: 0 :: ?l) with ([0; 0; 0; 0] ++ l). rewrite (rd_app 4 [0; 0; 0; 0]) by reflexivity. cbn [obind].
+    assert (Hent' : Forall (fun h => 0 < h /\ h < MAX_THETA) (a_entries a)).
+    { eapply Forall_impl; [|exact Hent]. intros h Hh. cbv beta in *. rewrite Eth in Hh. exact Hh. }
+    unfold entry_bytes, cnt_of.
+    rewrite (read_entries_flat MAX_THETA); [|rewrite max_theta_val; unfold M64; lia|exact Hent']. cbn [obind].
+    rewrite ensure_ordered_ok by exact Hord'. cbn [obind]. unfold conc. rewrite Hne, Eth. reflexivity.
+  - (* preLongs 3 *)
+    change (3 =? 1) with false. change (2 <? 3) with true. change (3 =? 3) with true. cbv iota.
+    rewrite rd_le by exact Hcnt. cbn [obind].
+    change (0 :: 0 :: 0 :: 0 :: ?l) with ([0; 0; 0; 0] ++ l). rewrite (rd_app 4 [0; 0; 0; 0]) by reflexivity. cbn [obind].
+    rewrite rd_le by (change (256 ^ N.of_nat 8) with M64; unfold M64, S_MAX_THETA in *; lia). cbn [obind].
+    unfold ensure_theta. change MAX_THETA with S_MAX_THETA.
+    destruct (N.eqb_spec (a_theta a) 0); [lia|]. destruct (N.ltb_spec S_MAX_THETA (a_theta a)); [lia|]. cbn [orb obind].
+    unfold entry_bytes, cnt_of. rewrite read_entries_flat; [|unfold M64, S_MAX_THETA in *; lia|exact Hent]. cbn [obind].
+    rewrite ensure_ordered_ok by exact Hord'. cbn [obind]. unfold conc. rewrite Hne. reflexivity.
+Qed.
+
 (* every variant, in one statement *)
 Theorem reads_every_variant : forall sh v a, abs_okb a = true -> expressible v a = true ->
   a_seed_hash a = sh -> c_deserialize sh (enc_spec v a) = Ok (conc a) /\ abs_of (conc a) = a.
 Proof.
   intros sh v a Hok Hex Hseed. split; [|apply abs_conc].
-  destruct v as [| |sf|]; cbn [enc_spec].
+  destruct v as [| |sf|pre|]; cbn [enc_spec].
   - now apply reads_v1.
   - now apply reads_v2.
   - apply reads_v3; [exact Hok|intros _; exact Hseed].
+  - now apply reads_v3_long.
   - apply reads_v4; [exact Hok|intros _; exact Hseed|exact Hex].
 Qed.
 
@@ -734,12 +791,70 @@ Proof.
       unfold cnt_of in Hem. destruct (a_entries a); cbn [length Nat.eqb] in *; [discriminate|congruence].
 Qed.
 
+Theorem spec_roundtrip_v3_long : forall sh pre a, abs_okb a = true -> expressible (V3L pre) a = true ->
+  dec_spec sh (enc_v3_long pre a) = Some a.
+Proof.
+  intros sh pre a Hok Hex. destruct (expressible_v3l pre a Hex) as [Hne Hpre].
+  destruct (abs_ok_parts a Hok) as [Hent [Hth0 [Hth [Hemp [Hord [Hsd Hcnt]]]]]].
+  pose proof (entries_lt64 a Hok) as H64.
+  assert (Hcn : N.to_nat (cnt_of a) = length (a_entries a)) by (unfold cnt_of; apply Nat2N.id).
+  unfold enc_v3_long.
+  set (flags := S_READ_ONLY + S_COMPACT + (if a_ordered a then S_ORDERED else 0)).
+  assert (HF : flag flags S_EMPTY = false /\ flag flags S_ORDERED = a_ordered a).
+  { unfold flags. destruct (a_ordered a); vm_compute; split; reflexivity. }
+  destruct HF as [Fe Fo].
+  destruct Hpre as [[-> Hest] | ->].
+  - unfold est in Hest. assert (Eth : a_theta a = S_MAX_THETA) by (apply N.ltb_ge in Hest; lia).
+    change (2 =? 3) with false. cbv iota. rewrite app_nil_l.
+    set (img := [2; 3; S_FAMILY_THETA; 0; 0; flags] ++ le_bytes 2 (a_seed_hash a) ++ le_bytes 4 (cnt_of a) ++ [0; 0; 0; 0] ++ entry_bytes a).
+    assert (Hlen : length img = (16 + 8 * length (a_entries a))%nat).
+    { unfold img, entry_bytes. rewrite !app_length, !le_bytes_length, flat_map_le8_length. cbn [length]. lia. }
+    assert (Es : u 2 6 img = a_seed_hash a) by (unfold img; apply u_app; [reflexivity|exact Hsd]).
+    assert (Ec : u 4 8 img = cnt_of a).
+    { unfold img. rewrite (app_assoc [2; 3; S_FAMILY_THETA; 0; 0; flags]).
+      apply u_app; [rewrite app_length, le_bytes_length; reflexivity|exact Hcnt]. }
+    assert (Eh : hashes (length (a_entries a)) 16 img = a_entries a).
+    { unfold img, entry_bytes. rewrite !app_assoc. rewrite <- (app_nil_r (flat_map (le_bytes 8) (a_entries a))). rewrite app_assoc.
+      rewrite <- app_assoc. apply hashes_flat; [rewrite !app_length, !le_bytes_length; reflexivity|exact H64]. }
+    unfold dec_spec. rewrite has_true by lia. cbn [negb].
+    assert (E2 : nth 2 img 0 = S_FAMILY_THETA) by reflexivity. assert (E1 : nth 1 img 0 = 3) by reflexivity.
+    assert (E0 : nth 0 img 0 = 2) by reflexivity. assert (E5 : nth 5 img 0 = flags) by reflexivity.
+    rewrite E2, E1. change (S_FAMILY_THETA =? S_FAMILY_THETA) with true. cbn [negb].
+    change (3 =? 3) with true. cbv iota.
+    unfold dec_v3. rewrite E0, E5, Fe, Fo, Es. change (2 =? 1) with false. change (2 =? 2) with true. cbv iota.
+    rewrite Ec, Hcn. rewrite has_true by lia. rewrite Eh.
+    apply tabs_eq; congruence.
+  - change (3 =? 3) with true. cbv iota.
+    set (img := [3; 3; S_FAMILY_THETA; 0; 0; flags] ++ le_bytes 2 (a_seed_hash a) ++ le_bytes 4 (cnt_of a) ++ [0; 0; 0; 0] ++ le_bytes 8 (a_theta a) ++ entry_bytes a).
+    assert (Hlen : length img = (24 + 8 * length (a_entries a))%nat).
+    { unfold img, entry_bytes. rewrite !app_length, !le_bytes_length, flat_map_le8_length. cbn [length]. lia. }
+    assert (Es : u 2 6 img = a_seed_hash a) by (unfold img; apply u_app; [reflexivity|exact Hsd]).
+    assert (Ec : u 4 8 img = cnt_of a).
+    { unfold img. rewrite (app_assoc [3; 3; S_FAMILY_THETA; 0; 0; flags]).
+      apply u_app; [rewrite app_length, le_bytes_length; reflexivity|exact Hcnt]. }
+    assert (Et : u 8 16 img = a_theta a).
+    { unfold img. rewrite !app_assoc. rewrite <- (app_assoc _ (le_bytes 8 (a_theta a))).
+      apply u_app; [rewrite !app_length, !le_bytes_length; reflexivity|]. change (256 ^ N.of_nat 8) with M64. unfold M64, S_MAX_THETA in *. lia. }
+    assert (Eh : hashes (length (a_entries a)) 24 img = a_entries a).
+    { unfold img, entry_bytes. rewrite !app_assoc. rewrite <- (app_nil_r (flat_map (le_bytes 8) (a_entries a))). rewrite app_assoc.
+      rewrite <- app_assoc. apply hashes_flat; [rewrite !app_length, !le_bytes_length; reflexivity|exact H64]. }
+    unfold dec_spec. rewrite has_true by lia. cbn [negb].
+    assert (E2 : nth 2 img 0 = S_FAMILY_THETA) by reflexivity. assert (E1 : nth 1 img 0 = 3) by reflexivity.
+    assert (E0 : nth 0 img 0 = 3) by reflexivity. assert (E5 : nth 5 img 0 = flags) by reflexivity.
+    rewrite E2, E1. change (S_FAMILY_THETA =? S_FAMILY_THETA) with true. cbn [negb].
+    change (3 =? 3) with true. cbv iota.
+    unfold dec_v3. rewrite E0, E5, Fe, Fo, Es. change (3 =? 1) with false. change (3 =? 2) with false. change (3 =? 3) with true. cbv iota.
+    rewrite Ec, Hcn. rewrite has_true by lia. rewrite Eh, Et.
+    apply tabs_eq; congruence.
+Qed.
+
 Theorem spec_roundtrip : forall sh v a, abs_okb a = true -> expressible v a = true -> a_seed_hash a = sh ->
   dec_spec sh (enc_spec v a) = Some a.
 Proof.
-  intros sh v a Hok Hex Hseed. destruct v as [| |sf|]; cbn [enc_spec].
+  intros sh v a Hok Hex Hseed. destruct v as [| |sf|pre|]; cbn [enc_spec].
   - now apply spec_roundtrip_v1.
   - now apply spec_roundtrip_v2.
   - now apply spec_roundtrip_v3.
+  - now apply spec_roundtrip_v3_long.
   - now apply spec_roundtrip_v4.
 Qed.
